@@ -81,9 +81,26 @@ func VH_C06_seed() {
 	vm2.Seed = seed
 	vm2.Init()
 	vAssert(vm2.RandSrc != nil, "seeded-context-has-its-own-generator")
+	vAssert(vm2.RandSrc != randSource, "seeded-context-has-its-own-generator")
+	vAssert(vm2.RandSrc != src, "seeded-context-has-its-own-generator")
 	seed2, err2 := vm2.GetCurSeed()
 	vAssert(err2 == nil, "GetCurSeed-no-error")
 	vAssert(bytes.Equal(seed2, seed), "fresh-context-continues-from-the-captured-state")
+	// seeding a third context, and rolling on it, leaves the second one's state alone
+	vm3 := NewVM()
+	vm3.Seed = []byte{9, 9, 9, 9, 9, 9, 9, 9, 1, 1, 1, 1, 1, 1, 1, 1}
+	vm3.Init()
+	vAssert(vm3.RandSrc != vm2.RandSrc, "two-seeded-contexts-have-distinct-generators")
+	_ = vm3.Run("3d6 + d20")
+	seed3, _ := vm2.GetCurSeed()
+	vAssert(bytes.Equal(seed3, seed), "state-unchanged-by-another-context")
+	// seeding does not touch the package-level generator either
+	g0, _ := randSource.MarshalBinary()
+	vm4 := NewVM()
+	vm4.Seed = seed
+	vm4.Init()
+	g1, _ := randSource.MarshalBinary()
+	vAssert(bytes.Equal(g0, g1), "seeding-leaves-the-package-generator-alone")
 }
 
 var vC06OrderProgs = []string{
